@@ -31,6 +31,7 @@ type flowOpts struct {
 	// viaObject: state, nonce and the PKCE parameters travel only inside a request object signed with the client's
 	// registered key (honoured only by providers that support request objects)
 	viaObject bool
+	noState   bool // the client sends no state parameter at all
 }
 
 type session struct {
@@ -65,7 +66,7 @@ func fill(w *world.World, o *flowOpts) {
 	if o.redirect == "" {
 		o.redirect = w.Store.Clients[o.client].Redirects[0]
 	}
-	if o.state == "" {
+	if o.state == "" && !o.noState {
 		o.state = "state-1"
 	}
 	if o.nonce == "" {
